@@ -1,7 +1,7 @@
 // Harness API, native side: the same harness source that the engine executes symbolically is compiled natively
 // with this file; nondet values come from a replay vector, assertions and observations are logged.
 // The engine intercepts every function declared here (by name) and never executes these bodies.
-package PKGNAME
+package schema
 
 import (
 	"fmt"
